@@ -53,8 +53,16 @@ def case_basic(draw, tier):
              diag=draw(st.sampled_from([1.0, 1.0, 2.0, 1e3, -1.0, 0.5])),
              bmode=draw(st.sampled_from(['vector', 'vector', 'none'])),
              eps=draw(st.sampled_from([None, 1e-10, 1e-12, 1e-8])),
-             seedperm=draw(st.integers(0, 10**6)))
+             seedperm=draw(st.integers(0, 10**6)),
+             cplx=draw(st.integers(0, 3)) == 0)
     return s
+
+
+def zval(c, i, j, v):
+    """entry value: complex systems (Helmholtz-type) multiply by unit-ish complex factors that keep the rows dominant"""
+    if not c.get('cplx'):
+        return v
+    return v * ((1 + 0.5j) if (i + j) % 2 == 0 else (1 - 0.25j))
 
 
 def build_matrix(c, fmt=None):
@@ -63,7 +71,7 @@ def build_matrix(c, fmt=None):
     fmt = fmt or c['fmt']
     rows = np.array([e[0] for e in c['entries']], dtype=np.int32)
     cols = np.array([e[1] for e in c['entries']], dtype=np.int32)
-    vals = np.array([e[2] for e in c['entries']], dtype=float)
+    vals = np.array([zval(c, *e) for e in c['entries']], dtype=complex if c.get('cplx') else float)
     if fmt.startswith('csr'):
         # build CSR by hand so that explicit zeros and (optionally) unsorted column order survive
         order = np.lexsort((cols if fmt == 'csr' else -cols, rows))
@@ -82,9 +90,9 @@ def build_matrix(c, fmt=None):
 
 
 def dense(c):
-    A = np.zeros((c['n'], c['n']))
+    A = np.zeros((c['n'], c['n']), dtype=complex if c.get('cplx') else float)
     for i, j, v in c['entries']:
-        A[i, j] = v
+        A[i, j] = zval(c, i, j, v)
     return A
 
 
@@ -134,9 +142,12 @@ def body_basic(c, ctx):
     Ad = dense(c)
     b0 = np.array(c['b'], dtype=float)
     x0 = np.array(c['x'], dtype=float)
+    if c.get('cplx'):
+        b0 = b0 * (1 + 0.25j)
+        x0 = x0 * (1 - 0.5j)
     I, D = split(c)
     empty, nodiag, unsym, xnz = features(c)
-    ctx.cls(c['fmt'], 'spec:' + c['spec'], 'emptyrow' if empty else 'no-emptyrow', 'nodiag' if nodiag else 'diag',
+    ctx.cls(c['fmt'], 'spec:' + c['spec'], 'complex' if c.get('cplx') else 'real', 'emptyrow' if empty else 'no-emptyrow', 'nodiag' if nodiag else 'diag',
             'nD=0' if len(D) == 0 else ('nD=n' if len(D) == n else 'mixed'))
     ctx.nt(empty or nodiag or c['fmt'] == 'csr_unsorted' or unsym or xnz)
     rng = np.random.RandomState(c['seedperm'])
@@ -148,7 +159,7 @@ def body_basic(c, ctx):
         Iu = I.copy()
         rng.shuffle(Iu)
         kw = lambda: dict(I=Iu.copy())                     # noqa
-    xD = x0 if c['xmode'] == 'given' else np.zeros(n)
+    xD = x0 if c['xmode'] == 'given' else np.zeros(n, dtype=b0.dtype)
     xarg = (lambda: x0.copy()) if c['xmode'] == 'given' else (lambda: None)
     scale = 1.0 + np.abs(Ad).max() * (1 + np.abs(x0).max()) + np.abs(b0).max()
     sig = dict(fmt=c['fmt'], spec=c['spec'])
